@@ -40,7 +40,7 @@ func EncodeStyled(ext string, docs []tv.T, style string) ([]byte, error) {
 				}
 			}
 			n := &yaml.Node{}
-			if err := n.Encode(tv.ToGo(d)); err != nil {
+			if err := n.Encode(wholeFloatsYAML(tv.ToGo(d))); err != nil {
 				return nil, err
 			}
 			QuoteMergeStrings(n)
